@@ -4,7 +4,7 @@
    [ref_args g c t] = tinputs t ++ map c (pred g t): static inputs, then predecessor results in the
    order of the workflow's predecessor list;  [built g]: g is reachable by WorkflowBuilder operations. *)
 From Coq Require Import List Bool PArith Arith Permutation.
-From PV Require Import Base.PyData C17.Model C17.ProofsSched C17.ProofsDask C17.ProofsGraph C17.ProofsBuilder C17.Proofs C17.ProofsPrepare C17.ProofsDeclared C17.ProofsOptimize C17.ProofsQueries C17.ProofsFuse C17.ProofsFinal.
+From PV Require Import Base.PyData C17.Model C17.ProofsSched C17.ProofsDask C17.ProofsGraph C17.ProofsBuilder C17.Proofs C17.ProofsPrepare C17.ProofsDeclared C17.ProofsOptimize C17.ProofsQueries C17.ProofsFuse C17.ProofsOptimizeAll C17.ProofsFinal.
 Import ListNotations.
 
 (* The sequential reference evaluation IS what the property describes: in any order in which it
@@ -370,3 +370,33 @@ Theorem fuse_steps_preserve :
     inline_only steps = true -> avoids r steps = true -> fuse_steps d steps = (dn, true) ->
     NoDup (dkeys dn) /\ length (dask_sched dn) = length dn /\ dask_get apply dn r = dask_get apply d r.
 Proof. exact fuse_steps_preserve_stmt. Qed.
+
+(* ---- optimize_task_graph_for_dask_distributed as a whole ------------------------------------------------ *)
+(* unpacking the futures (what the distributed scheduler does before it runs a task) commutes with any sequence of
+   inline steps, on every dict whose futures wrap atoms only (what _scatter_value makes) *)
+Theorem unpacking_commutes_with_inlining :
+  forall (steps : list fstep) (d : dsk), dsk_atomic d = true -> inline_only steps = true ->
+    unfut_dsk (fst (fuse_steps d steps)) = fst (fuse_steps (unfut_dsk d) steps).
+Proof. exact unpacking_commutes_with_inlining_stmt. Qed.
+
+(* optimize_preserves.  For EVERY duplicate-free acyclic dict without futures, every sequence of inline steps that is
+   legal on it (what fuse(rename_keys=False) does) and every key r no step removes: what the distributed scheduler
+   returns for r on the dict that was first scattered and then inlined = what the local scheduler returns for r on
+   the original dict (value or error). *)
+Theorem optimize_preserves :
+  forall (apply : positive -> list sval -> sval) (d : dsk) (steps : list fstep) (r : positive),
+    NoDup (dkeys d) -> length (dask_sched d) = length d -> dsk_no_fut d = true ->
+    inline_only steps = true -> avoids r steps = true -> snd (fuse_steps d steps) = true ->
+    dask_get_dist apply (fst (fuse_steps (scatter_dsk d) steps)) r = dask_get apply d r.
+Proof. exact optimize_preserves_stmt. Qed.
+
+(* ... composed with dask_get_sound: for every acyclic single-output workflow graph with fresh keys and ANY
+   future-free static input, the optimized dict evaluates at 'results' to the sequential reference evaluation. *)
+Theorem optimized_workflow_sound :
+  forall (apply : positive -> list sval -> sval) (g : tgraph) (ids : task -> positive) (d : dsk) (o : task) (steps : list fstep),
+    output_tasks g = [o] -> as_dask_dict g ids = Some d -> g_keys_fresh g ids = true ->
+    length (topo_order g) = length (nodes g) ->
+    (forall t a, In t (nodes g) -> In a (tinputs t) -> no_fut a = true) ->
+    inline_only steps = true -> avoids results steps = true -> snd (fuse_steps d steps) = true ->
+    exists v, ref_get apply g = ROk v /\ dask_get_dist apply (fst (fuse_steps (scatter_dsk d) steps)) results = ROk v.
+Proof. exact optimized_workflow_sound_stmt. Qed.
